@@ -488,6 +488,49 @@ theorem stepsFull_reverse (L : JLaws F) (cfg : Cfg F) (s : Scheme F) (hp : Palin
     · show js.nAllocated = st'.length
       rw [hl]; exact hn
 
+/-! ### velocity-dependent forces: the model with `accV` restricts to the position-only model -/
+
+theorem positions_of_toDouble (sp sv : F) (s : List PInt) :
+    (toDouble sp sv s).map (fun d => (⟨d.x, d.y, d.z⟩ : V3 F)) = positions sp s := by
+  simp only [toDouble, positions, List.map_map]
+  rfl
+
+theorem runV_eq_run (cfg : Cfg F) (accV : List (PDbl F) → List (V3 F))
+    (h : ∀ d, accV d = cfg.acc (d.map (fun q => (⟨q.x, q.y, q.z⟩ : V3 F)))) (l : List (Op F)) :
+    ∀ st, runV cfg accV l st = run cfg l st := by
+  induction l with
+  | nil => intro st; rfl
+  | cons op r ih =>
+    intro st
+    have e : op.applyV cfg accV st = op.apply cfg st := by
+      cases op with
+      | drift c => rfl
+      | kick b =>
+        show kickL b cfg.scaleVel st (accV _) = kickL b cfg.scaleVel st (cfg.acc _)
+        rw [h, positions_of_toDouble]
+    simp only [runV, run, e]
+    cases op.apply cfg st with
+    | none => rfl
+    | some s' => exact ih s'
+
+theorem stepsV_eq_steps (cfg : Cfg F) (accV : List (PDbl F) → List (V3 F))
+    (h : ∀ d, accV d = cfg.acc (d.map (fun q => (⟨q.x, q.y, q.z⟩ : V3 F)))) (s : Scheme F) (dt : F) (n : Nat) :
+    ∀ st, stepsV cfg accV s dt n st = steps cfg s dt n st := by
+  have hs : ∀ st, stepV cfg accV s dt st = step cfg s dt st := by
+    intro st
+    unfold stepV step
+    cases stepOps s dt with
+    | none => rfl
+    | some ops => exact runV_eq_run cfg accV h ops st
+  induction n with
+  | zero => intro st; rfl
+  | succ n ih =>
+    intro st
+    simp only [stepsV, steps, hs]
+    cases step cfg s dt st with
+    | none => rfl
+    | some st1 => exact ih st1
+
 /-! ### palindromes from the index function alone -/
 
 /-- the scheme a table denotes, its constants read through an arbitrary `f` -/
